@@ -37,7 +37,41 @@ func ClassOf(v interface{}) Class {
 	case bool:
 		return CBool
 	}
+	if v == nil {
+		return COther
+	}
+	// named types over the basic kinds (time.Duration, type Level int64 ...) behave as their kind
+	switch reflect.TypeOf(v).Kind() {
+	case reflect.Int, reflect.Int8, reflect.Int16, reflect.Int32, reflect.Int64:
+		return CInt
+	case reflect.Uint, reflect.Uint8, reflect.Uint16, reflect.Uint32, reflect.Uint64:
+		return CUint
+	case reflect.Float32, reflect.Float64:
+		return CFloat
+	case reflect.String:
+		return CString
+	case reflect.Bool:
+		return CBool
+	}
 	return COther
+}
+
+var basicOfKind = map[reflect.Kind]reflect.Type{
+	reflect.Int: reflect.TypeOf(int(0)), reflect.Int8: reflect.TypeOf(int8(0)), reflect.Int16: reflect.TypeOf(int16(0)), reflect.Int32: reflect.TypeOf(int32(0)), reflect.Int64: reflect.TypeOf(int64(0)),
+	reflect.Uint: reflect.TypeOf(uint(0)), reflect.Uint8: reflect.TypeOf(uint8(0)), reflect.Uint16: reflect.TypeOf(uint16(0)), reflect.Uint32: reflect.TypeOf(uint32(0)), reflect.Uint64: reflect.TypeOf(uint64(0)),
+	reflect.Float32: reflect.TypeOf(float32(0)), reflect.Float64: reflect.TypeOf(float64(0)), reflect.String: reflect.TypeOf(""), reflect.Bool: reflect.TypeOf(false),
+}
+
+// Norm turns a value of a named type over a basic kind into the value of the basic type itself.
+func Norm(v interface{}) interface{} {
+	if v == nil {
+		return v
+	}
+	t := reflect.TypeOf(v)
+	if b, ok := basicOfKind[t.Kind()]; ok && t != b {
+		return reflect.ValueOf(v).Convert(b).Interface()
+	}
+	return v
 }
 
 func AsI(v interface{}) int64   { return reflect.ValueOf(v).Int() }
@@ -54,6 +88,7 @@ var ErrUndefined = errors.New("reference value undefined")
 
 // Arith implements + - * / of the reference semantics.
 func Arith(op byte, a, b interface{}) (interface{}, error) {
+	a, b = Norm(a), Norm(b)
 	ca, cb := ClassOf(a), ClassOf(b)
 	if ca == CString && cb == CString {
 		if op == '+' {
@@ -153,6 +188,7 @@ func toI(v interface{}) int64 {
 
 // Compare implements the six comparison operators.
 func Compare(op string, a, b interface{}) (bool, error) {
+	a, b = Norm(a), Norm(b)
 	ca, cb := ClassOf(a), ClassOf(b)
 	var c int // -1, 0, 1
 	switch {
@@ -293,12 +329,12 @@ func ConvertTo(v interface{}, target reflect.Type, crossClass bool) (out interfa
 		ct = CFloat
 	case reflect.String:
 		if cv == CString {
-			return v, true
+			return reflect.ValueOf(v).Convert(target).Interface(), true
 		}
 		return nil, false
 	case reflect.Bool:
 		if cv == CBool {
-			return v, true
+			return reflect.ValueOf(v).Convert(target).Interface(), true
 		}
 		return nil, false
 	default:
